@@ -589,12 +589,21 @@ type altCtx struct {
 	authorised bool // the key's attributes satisfy the policy of the honest ciphertext
 	msg        []byte
 	desc       string
+	sub        string // evidence sub-check prefix, default "cycle/bitflip-"
+	diffKey    string // finding key for "decrypts to another message", default C20/bitflip/different-message
 }
 
-// alteration checks one same-length altered ciphertext. single tells whether
+// alteration checks one altered ciphertext. single tells whether
 // exactly one bit differs from the honest ciphertext.
 func alteration(rep func(key, detail string) bool, ac *altCtx, ct, ct2 []byte, format, where, alt string, single, headerTouched bool) bool {
 	sub := "cycle/bitflip-" + format
+	if ac.sub != "" {
+		sub = ac.sub + format
+	}
+	diffKey := "C20/bitflip/different-message"
+	if ac.diffKey != "" {
+		diffKey = ac.diffKey
+	}
 	vlib.Eval(sub)
 	var pt []byte
 	var err error
@@ -613,7 +622,7 @@ func alteration(rep func(key, detail string) bool, ac *altCtx, ct, ct2 []byte, f
 		}
 	} else if err == nil {
 		if !bytes.Equal(pt, ac.msg) {
-			return rep("C20/bitflip/different-message", fmt.Sprintf("altered %s ciphertext (%s, region %s) decrypts to %s instead of %s; attributes %s; %s", format, alt, where, vlib.Hex(pt), vlib.Hex(ac.msg), ac.attrsText, ac.desc))
+			return rep(diffKey, fmt.Sprintf("altered %s ciphertext (%s, region %s) decrypts to %s instead of %s; attributes %s; %s", format, alt, where, vlib.Hex(pt), vlib.Hex(ac.msg), ac.attrsText, ac.desc))
 		}
 		if ac.authorised {
 			vlib.Class(sub, "altered-ciphertext-decrypts-to-same-message:"+where)
